@@ -181,9 +181,14 @@ def check(ctx, rep):
         for n in ast.walk(f.node):
             if isinstance(n, ast.Global):
                 globs.update(n.names)
-        ctors = [n for n in ast.walk(f.node) if isinstance(n, ast.Assign) and isinstance(n.value, ast.Call) and isinstance(n.value.func, ast.Name)
-                 and n.value.func.id in ("protocol", "handler")]
-        if not ctors:
+        # the classes are tried in a loop / comprehension: the object is built by calling the loop variable
+        loopvars = set()
+        for n in ast.walk(f.node):
+            if isinstance(n, (ast.For, ast.comprehension)):
+                loopvars.update(x.id for x in ast.walk(n.target) if isinstance(x, ast.Name))
+        ctor_calls = [n for n in ast.walk(f.node) if isinstance(n, ast.Call) and isinstance(n.func, ast.Name) and n.func.id in loopvars]
+        ctors = [n for n in ast.walk(f.node) if isinstance(n, ast.Assign) and any(n.value is c for c in ctor_calls)]
+        if not ctor_calls:
             problems.append(f"no {what} object is constructed per request")
         for n in ctors:
             for t in n.targets:
